@@ -82,7 +82,9 @@ var c01Hrefs = []string{"javascript:void(0)", "javascript:", "", "#", "#x", "2",
 
 var c01Srcs = []string{"http://www.youtube.com/embed/abc", "//www.youtube.com/v/abc&x=1", "https://player.vimeo.com/video/123", "https://player.vimeo.com/video/",
 	"https://platform.twitter.com/embed/index.html", "http://www.youtube.com/embed/", "http://www.youtube.com/", "i.png", "/img/x.jpg", "data:image/png;base64,AAAA",
-	"", "http://[::1/x.png", "%zz.png", "a.png 1x, b.png 2x", "http://twitter.com/u/status/", "http://youtube.com//", "x.webp 200w"}
+	"", "http://[::1/x.png", "%zz.png", "a.png 1x, b.png 2x", "http://twitter.com/u/status/", "http://youtube.com//", "x.webp 200w",
+	// data: URLs cut off at every joint
+	"data:image/gif;base64", "data:image/png;base64,", "data:;base64", "data:", "data:image/svg+xml;base64", "DATA:image/png;BASE64,AAAA", "data:image/png;base64,AAAA ", "data:image/gif;base64 ,R0lG", "data:image/png,base64"}
 
 var c01Attrs = [][]string{
 	{"class", "twitter-tweet", "lazy-image-placeholder", "sharing", "socialArea", "mw-editsection", "comment", "comments x", "sidebar", "byline", "author",
@@ -548,9 +550,12 @@ var c01HideAttrs = [][2]string{{"hidden", ""}, {"style", "display:none"}, {"styl
 
 func genC01Page(t *rapid.T) *Case {
 	var page string
-	if rapid.IntRange(0, 4).Draw(t, "pk") == 0 {
+	switch pk := rapid.IntRange(0, 5).Draw(t, "pk"); {
+	case pk == 0:
 		page = genPager(t).HTML
-	} else {
+	case pk == 1:
+		page = genC14(t).HTML // structured markup of every source, nested items included
+	default:
 		p := rewriteProfile()
 		p.MaxTop = 7
 		page = newG(t, p).page()
